@@ -160,6 +160,9 @@ func (t *textReader) nextAfterValue() (bool, error) {
 	}
 }
 
+// IonVersionMarker is the text spelling of the Ion 1.0 version marker.
+const ionVersionMarker = "$ion_1_0"
+
 // NextBeforeFieldName moves to the next value when we're in the
 // BeforeFieldName state.
 func (t *textReader) nextBeforeFieldName() (bool, error) {
@@ -274,6 +277,14 @@ func (t *textReader) nextBeforeTypeAnnotations() (bool, error) {
 			t.valueType = SymbolType
 			t.state = t.stateAfterValue()
 		} else {
+			if tok == tokenSymbol && val == ionVersionMarker && len(t.annotations) == 0 && t.ctx.peek() == ctxAtTopLevel {
+				// An unquoted, unannotated $ion_1_0 at the top level is the text form of the
+				// version marker: it is not a value, and it resets the symbol table.
+				t.lst = V1SystemSymbolTable
+				t.clear()
+				t.state = t.stateAfterValue()
+				return false, nil
+			}
 			if err := t.onSymbol(val, tok, ws); err != nil {
 				return false, err
 			}
